@@ -210,6 +210,21 @@ fn judge(cx: &Cx, c: &Compared, label: &str, cnt: &Cnt) {
     if c.obs.data != exp_text {
         let diff = first_diff(exp, &got, "").unwrap_or_else(|| "serialization differs".into());
         let kind = diff.split(' ').next().unwrap_or("differs").to_string();
+        // a null expected at/below a response key that several field nodes carry, with an expected error below it:
+        // each node was executed separately and the results merged afterwards, so the null one execution produced
+        // is overwritten by the object another produced (root cause of the C04 finding; classified as in C03)
+        let at = diff.split(" at ").nth(1).unwrap_or("").trim();
+        let at_path: Vec<&str> = at.split('/').filter(|s| !s.is_empty()).collect();
+        let repeated = at_path.iter().filter(|s| s.parse::<usize>().is_err()).any(|k| agv_common::casecheck::key_occurrences(&c.doc, k) > 1);
+        let error_below = c.reference.errors.iter().any(|e| {
+            let p = path_str(&e.path);
+            let pre = at_path.join(".");
+            p == pre || p.starts_with(&format!("{pre}."))
+        });
+        if kind == "expected-null" && repeated && error_below {
+            cx.violation(Violation::new("partial-failure-merged-for-repeated-key", format!("{diff}\n {}", describe()), case).key("flavour", "dynamic"));
+            return;
+        }
         cx.violation(Violation::new(format!("data-{kind}"), format!("{diff}\n {}", describe()), case).key("cause", cause).key("features", c.features.join(",")));
     } else if let Err(e) = errors_consistent(&c.reference.errors, &got_paths) {
         let class = if e.starts_with("expected an error") { "error-missing" } else { "error-unexpected-or-duplicate" };
@@ -219,6 +234,100 @@ fn judge(cx: &Cx, c: &Compared, label: &str, cnt: &Cnt) {
     } else if exp_text.len() > 2 && exp_text != "null" {
         cnt.agree.fetch_add(1, Ordering::Relaxed);
     }
+}
+
+/// Family B — "chain pairs" (same construction as C01's): every pair of selection chains of depth ≤ 3 through
+/// object, interface and list-of-object fields of D(S1), written side by side under the same root so that
+/// repeated response keys have to be merged at depth; the second chain also behind an inline fragment and a
+/// named fragment on Query when the two chains share their root field. Lists have 2 items.
+fn chains() -> Vec<String> {
+    let root: &[&str] = &["o", "l", "ln", "i", "lu"];
+    fn below(c: &str) -> (&'static [&'static str], &'static [&'static str], &'static str, &'static str) {
+        match c {
+            "i" => (&["o"], &["a", "n"], "", ""),
+            "lu" => (&["o", "l"], &["a", "n"], "... on A { ", " }"),
+            _ => (&["o", "l", "ln"], &["a", "n", "pa"], "", ""),
+        }
+    }
+    fn rec(c: &str, depth: usize, out: &mut Vec<String>) {
+        let (conts, leaves, open, close) = below(c);
+        for l in leaves {
+            out.push(format!("{c} {{ {open}{l}{close} }}"));
+        }
+        if depth > 1 {
+            for k in conts {
+                let mut inner = Vec::new();
+                rec(k, depth - 1, &mut inner);
+                for i in inner {
+                    out.push(format!("{c} {{ {open}{i}{close} }}"));
+                }
+            }
+        }
+    }
+    let mut out = Vec::new();
+    for c in root {
+        rec(c, 3, &mut out);
+    }
+    out
+}
+
+struct Lists2<'a> {
+    s: &'a Schema,
+    table: std::collections::BTreeMap<String, Ans>,
+}
+impl<'a> agv_refgql::exec::World for Lists2<'a> {
+    fn ask(&mut self, path: &[agv_refgql::exec::Seg], ty: &Type, _f: Option<(&str, &agv_refgql::schema::FieldT, &[(String, agv_refgql::coerce::Val)])>) -> Ans {
+        if matches!(ty.nullable(), Type::List(_)) {
+            self.table.insert(path_str(path), Ans::List(2));
+            Ans::List(2)
+        } else {
+            agv_refgql::exec::TableWorld::default_for(self.s, ty)
+        }
+    }
+}
+
+fn chain_pairs(cx: &Cx, v: &Variant, cnt: &Cnt) -> u64 {
+    use rayon::prelude::*;
+    let cs = chains();
+    let n = cs.len();
+    let quick = cx.quick();
+    let mut texts: Vec<String> = Vec::new();
+    for i in 0..n {
+        for j in 0..n {
+            let same_root = cs[i].split(' ').next() == cs[j].split(' ').next();
+            if !quick || (i + j) % 3 == 0 || same_root {
+                texts.push(format!("{{ {} {} }}", cs[i], cs[j]));
+            }
+            if same_root && i != j && (!quick || (i + j) % 2 == 0) {
+                texts.push(format!("{{ {} ... on Query {{ {} }} }}", cs[i], cs[j]));
+                texts.push(format!("{{ ...F {} }} fragment F on Query {{ {} }}", cs[i], cs[j]));
+            }
+        }
+    }
+    texts.par_iter().for_each(|text| {
+        let Ok(doc) = agv_refgql::parse::parse_exec(text) else { return cx.machinery_error(format!("chain document does not parse: {text}")) };
+        if !agv_refgql::validate::validate(&v.ir, &doc).is_empty() {
+            return cx.machinery_error(format!("chain document is not valid: {text}"));
+        }
+        let mut w = Lists2 { s: &v.ir, table: Default::default() };
+        let reference = agv_refgql::exec::execute(&v.ir, &doc, None, &Default::default(), &mut w);
+        match agv_common::casecheck::run_fixed(&v.ir, &Target::Dynamic(&v.schema), text.clone(), doc, Default::default(), w.table, vec!["chain-pair"], Some(reference)) {
+            CaseOutcome::Ran(c) => {
+                cx.eval();
+                judge(cx, &c, &v.label, cnt);
+                let h = agv_engine::h64(&(&v.label, c.case_hash()));
+                cx.nontrivial(h);
+                cx.sample_with(h, || json!({"family": "chain-pair", "schema": v.label, "query": c.text, "data": c.expected_data_text()}));
+            }
+            CaseOutcome::Machinery(m) => cx.machinery_error(m),
+            CaseOutcome::Panic { msg, mut case } => {
+                case["schema"] = json!(v.label);
+                cx.violation(Violation::new("panic", format!("execute panicked: {msg}"), case))
+            }
+            _ => {}
+        }
+    });
+    texts.len() as u64
 }
 
 fn run(cx: &Cx) {
@@ -245,7 +354,8 @@ fn run_inner(cx: &Cx, only: Option<&J>) {
         }
         let all_edits = edits(ir);
         // quick: every 3rd single edit (all of them in the thorough tier)
-        let step = if quick { 3 } else { 1 };
+        // thorough: every edit of the small exemplars, every 4th of D(S1) (its full edit family ran > 1 h)
+        let step = if quick { 3 } else if *name == "D(S1)" { 4 } else { 1 };
         for (l1, e1) in all_edits.into_iter().step_by(step) {
             if let Some(v) = variant(format!("{name} / {l1}"), e1.clone(), encs[0], &build_failures) {
                 variants.push(v);
@@ -317,11 +427,16 @@ fn run_inner(cx: &Cx, only: Option<&J>) {
     if let Some(d) = st.diverged {
         cx.machinery_error(d);
     }
+    let mut chain_docs = 0;
+    for v in variants.iter().filter(|v| v.label.starts_with("D(S1)") && v.exemplar) {
+        chain_docs += chain_pairs(cx, v, &cnt);
+    }
+    cx.extra("chain_pair_documents", json!(chain_docs));
     if cnt.agree.load(Ordering::Relaxed) == 0 {
         cx.machinery_error("reference and implementation never agreed on a non-empty result");
     }
     cx.rule(&format!(
-        "case = (dynamic schema variant, valid document, variables, world). {nvar} schema variants (3 exemplars: the dynamic twin of S1, an interface-inheritance chain with a union and a validated custom scalar, a leaves schema; each under both value encodings; every single edit{} of: field wrapper over the 6 wrappers, leaf→custom scalar, union ±member, −implements, +enum value; variants the builder rejects are dropped) × every document ≤ {nodes} nodes for the exemplars and ≤ nodes−1 for their edits (≤ 1 decoration) × worlds with ≤ 1 value deviation and ≤ 1 kind-mismatching value. Non-trivial = executed cases, distinct by (variant, document, variables, world).",
+        "case = (dynamic schema variant, valid document, variables, world). {nvar} schema variants (3 exemplars: the dynamic twin of S1, an interface-inheritance chain with a union and a validated custom scalar, a leaves schema; each under both value encodings; every single edit (quick: every 3rd, none of D(S1); thorough: all, every 4th of D(S1)){} of: field wrapper over the 6 wrappers, leaf→custom scalar, union ±member, −implements, +enum value; variants the builder rejects are dropped) × every document ≤ {nodes} nodes for the exemplars and ≤ nodes−1 for their edits (≤ 1 decoration) × worlds with ≤ 1 value deviation and ≤ 1 kind-mismatching value. Family B (both encodings of D(S1)): every pair (quick: every third pair plus all pairs sharing their root field) of selection chains of depth ≤ 3 through o/l/ln/i/lu side by side, the second one also behind an inline and a named fragment on Query when the roots coincide; lists with 2 items (deep merging of repeated keys). Non-trivial = executed cases, distinct by (variant, document, variables, world).",
         if quick { "" } else { " and pair of edits" }
     ));
     cx.exhaustive(!st.capped);
